@@ -6,6 +6,10 @@ PATCH="$1"; shift
 S=$(mktemp -d /var/tmp/verif-scratch.XXXXXX)
 trap 'rm -rf "$S"' EXIT
 rsync -a --exclude target --exclude .git /repo/ "$S/"
+# a seed made before a later "fix:" commit that neutralises it carries that commit as base_revert.diff
+if [ "$PATCH" != "-" ] && [ -f "$(dirname "$PATCH")/base_revert.diff" ]; then
+  (cd "$S" && patch -R -p1 -s < "$(dirname "$PATCH")/base_revert.diff") || { echo "base revert failed"; exit 2; }
+fi
 if [ "$PATCH" = "-" ]; then (cd "$S" && patch -p1 -s) ; else (cd "$S" && patch -p1 -s < "$PATCH"); fi || { echo "patch failed"; exit 2; }
 rc=0
 for P in "$@"; do
